@@ -254,9 +254,12 @@ class DocutilsRenderer(RendererProtocol):
         # save for later reference resolution
         self.document.myst_slugs = self._heading_slugs
         if self._heading_slugs and self.sphinx_env:
-            self.sphinx_env.metadata[self.sphinx_env.docname]["myst_slugs"] = (
-                self._heading_slugs
-            )
+            metadata = self.sphinx_env.metadata[self.sphinx_env.docname]
+            # a document can be parsed in parts (e.g. rST ``include`` directives with
+            # the ``parser`` option): keep the headings of the parts already parsed
+            for slug, value in metadata.get("myst_slugs", {}).items():
+                self._heading_slugs.setdefault(slug, value)
+            metadata["myst_slugs"] = self._heading_slugs
 
         # a file-level ``ref_domains``, for the (project wide) sphinx reference resolver
         global_config = getattr(self.sphinx_env, "myst_config", None)
